@@ -123,10 +123,10 @@ class Align(Exception):
 
 
 class Decl:
-    __slots__ = ("name", "id", "what")
+    __slots__ = ("name", "id", "what", "arity")
 
     def __init__(self, name, what):
-        self.name, self.id, self.what = name, None, what
+        self.name, self.id, self.what, self.arity = name, None, what, None
 
 
 def type_is_quantum(ty):
@@ -460,6 +460,8 @@ class Walker:
         has_ctrl = any(kind(x) in ("CtrlModifier", "NegCtrlModifier") for x in mods_ast)
         if m:
             np_, nq_ = int(m.group(1)), int(m.group(2))
+            if getattr(d, "arity", None) is not None:
+                np_, nq_ = d.arity
             if np_ != nparams:
                 self.exp[("NumGateParamsError",) + (span(al) if nparams != 0 else span(ident))] += 1
             if has_ctrl:
@@ -646,7 +648,12 @@ class Walker:
                     self.declare(decode_str(p[3]), "qubit", span(p), s_)
             self.block_stmts(body[3], g[4][1])
             self.pop()
-            self.declare(decode_str(name[3]), "gate", span(name), g[1])
+            fresh = decode_str(name[3]) not in self.scopes[-1]
+            gd = self.declare(decode_str(name[3]), "gate", span(name), g[1])
+            if fresh and gd is not None and gd.what == "gate" and gd.arity is None:
+                # the arity that was WRITTEN (repeated parameter names included): the usage rule compares calls with it,
+                # not with whatever the table recorded
+                gd.arity = (0 if is_none(ap) else len(ap[3]), 0 if is_none(qp) else len(qp[3]))
         elif k == "Def":
             if gk != "DefStmt":
                 raise Align("def")
